@@ -273,6 +273,7 @@ pub fn def() -> PropDef {
                 cases_quick: 20_000,
                 cases_thorough: 200_000,
                 max_shrink_iters: 400,
+                limit_factor: 1,
                 strategy: || case_strategy(20_000, 6),
                 check: run_case,
             }),
@@ -282,6 +283,7 @@ pub fn def() -> PropDef {
                 cases_quick: 400,
                 cases_thorough: 3_000,
                 max_shrink_iters: 60,
+                limit_factor: 1,
                 strategy: || case_strategy(120_000, 16),
                 check: run_case,
             }),
